@@ -114,7 +114,7 @@ class OrderWatcherMixin:
 
 def run(chk, n):
     rng = chk.rng
-    for kn in ("acl", "rbac", "dom", "prio"):
+    for kn in ("acl", "rbac", "dom", "prio", "rbac_res"):
         for w in (1, 2, 3):
             kind = mgmt.KINDS[kn].with_(adapter=True, watcher=w)
             cases = []
